@@ -67,6 +67,9 @@ func genC13(tier string, seed int64) (*Family, error) {
 	return fam, nil
 }
 
+// tagReturnOracle adapts an oracle expression of the second-call instances to a whole-trace check.
+func tagReturnOracle(o string) string { return o }
+
 func genC14(tier string, seed int64) (*Family, error) {
 	pkg := "c14"
 	fam := &Family{
@@ -183,6 +186,82 @@ func genC14(tier string, seed int64) (*Family, error) {
 `, n, d.tagCall, d.plainCall, d.id != "Mix"))
 		}
 	}
+	// a rule that sets the tag and then leaves through a return statement
+	for _, d := range []struct{ id, call, oracle string }{
+		{"Sort", "eng.ExecuteWithStopTagDirect(rb, b, stag)", "checkSortedTag(tr, n, allTrue(n), s, t, f, b, err)"},
+		{"Selected", "eng.ExecuteSelectedRulesWithControlAndStopTag(rb, b, stag, []string{\"r0\", \"r1\"})", "checkSortedTag(tr, n, allTrue(n), s, t, f, b, err)"},
+		{"AsGiven", "eng.ExecuteSelectedRulesWithControlAndStopTagAsGivenSortedName(rb, b, stag, []string{\"r1\", \"r0\"})", "checkAsGiven(tr, n, []int{1, 0}, t, f, b, err)"},
+		{"Mix", "eng.ExecuteMixModelWithStopTagDirect(rb, stag)", "checkMixTag(0, n, s, t, f, err)"},
+	} {
+		name := "H_TagAndReturn" + d.id
+		add(name, "tag-and-return:"+d.id, d.id+": a rule sets the tag and returns a value", fmt.Sprintf(`	n := 2
+	s := symSal(n)
+	t := symFlags("t", n)
+	f := allFalse(n)
+	b := vnd.Bool("b")
+	_ = b
+	stag := &engine.Stag{}
+	dc := newDC(f)
+	addFlags(dc, "t", t)
+	dc.Add("stag", stag)
+	text := ""
+	for i := 0; i < n; i++ {
+		k := strconv.Itoa(i)
+		// the rule that sets the tag leaves through a return (its end event comes first)
+		text += "rule \"r" + k + "\" salience " + vnd.SalText(s[i]) + "\nbegin\n ev(\"r" + k + ".s\")\n if t" + k + " {\n  stag.StopTag = true\n  ev(\"r" + k + ".e\")\n  return 7\n }\n ev(\"r" + k + ".e\")\nend\n"
+	}
+	rb := buildText(dc, text)
+	eng := engine.NewGengine()
+	err := %s
+	vnd.Event("ret")
+	vnd.Quiesce()
+	vnd.Reach("executed")
+	tr := vnd.Trace()
+	_ = tr
+	%s
+`, d.call, tagReturnOracle(d.oracle)))
+	}
+	// two stop-tag requests waiting for an instance of a saturated pool at the same time: each obeys its own tag
+	add("P_two_waiting_requests", "pool", "two stop-tag requests queue on a saturated (1,2) pool", `	apis := map[string]interface{}{"unused": int64(0)} // requests bring every name the rules use (no clash with api names)
+	text := "rule \"r0\" salience 9 begin\n ev(\"r0.s\")\n hold()\n if set {\n  stag.StopTag = true\n }\n ev(\"r0.e\")\nend\nrule \"r1\" salience 5 begin\n ev(\"r1.s\")\n ev(\"r1.e\")\nend\n"
+	gp, e := engine.NewGenginePool(1, 2, engine.SortModel, text, apis)
+	must(e, "pool construction")
+	var gate sync.Mutex
+	gate.Lock()
+	var wg sync.WaitGroup
+	for k := 0; k < 2; k++ {
+		wg.Add(1)
+		go func() {
+			defer wg.Done()
+			gp.Execute(map[string]interface{}{"ev": func(x string) { vnd.Event("S:" + x) }, "set": false, "stag": &engine.Stag{}, "hold": func() {
+				gate.Lock()
+				gate.Unlock()
+			}}, true)
+		}()
+	}
+	vnd.Quiesce() // both instances are now held by requests blocked inside r0
+	sa, sb := &engine.Stag{}, &engine.Stag{}
+	wg.Add(2)
+	go func() {
+		defer wg.Done()
+		gp.ExecuteWithStopTagDirect(map[string]interface{}{"ev": func(x string) { vnd.Event("A:" + x) }, "hold": func() {}, "set": true, "stag": sa}, true, sa)
+	}()
+	go func() {
+		defer wg.Done()
+		gp.ExecuteWithStopTagDirect(map[string]interface{}{"ev": func(x string) { vnd.Event("B:" + x) }, "hold": func() {}, "set": false, "stag": sb}, true, sb)
+	}()
+	vnd.Nap() // both are polling for an instance
+	vnd.Nap()
+	gate.Unlock()
+	wg.Wait()
+	vnd.Quiesce()
+	vnd.Reach("executed")
+	vnd.Assert(sa.StopTag && !sb.StopTag, "each request's rules see their own tag object")
+	vnd.Assert(vnd.Count("A:r0.e") == 1 && vnd.Count("B:r0.e") == 1, "both requests ran their first rule")
+	vnd.Assert(vnd.Count("A:r1.s") == 0, "no rule starts after the request's own tag was set")
+	vnd.Assert(vnd.Count("B:r1.s") == 1, "a request whose tag stays unset runs every rule")
+`)
+	fam.Instances[len(fam.Instances)-1].Nondet = true
 	// a second call on the same engine with a fresh *Stag: only the tag of the current call counts
 	for _, d := range []struct{ id, call, oracle string }{
 		{"Sort", "eng.ExecuteWithStopTagDirect(rb, b, %s)", "checkSortedTag(tr, n, allTrue(n), s, t, f, b, err)"},
@@ -274,7 +353,7 @@ func sameRuns(tr1, tr2 []string, n int, ordered bool) {
 }
 `)
 	body := strings.ReplaceAll(b.String(), "%%", "%")
-	fam.Files[repoDir+"/zz_verif/"+pkg+"/h.go"] = strings.Replace(stdHead(pkg), "import (", "import (\n\t\"github.com/bilibili/gengine/builder\"", 1) + "\nvar _ = builder.NewRuleBuilder\n" + body
+	fam.Files[repoDir+"/zz_verif/"+pkg+"/h.go"] = strings.Replace(stdHead(pkg), "import (", "import (\n\t\"strconv\"\n\t\"sync\"\n\n\t\"github.com/bilibili/gengine/builder\"", 1) + "\nvar _ = builder.NewRuleBuilder\n" + body
 	fam.Files[repoDir+"/zz_verif/"+pkg+"/lib.go"] = libFile(pkg)
 	fam.TestFile = repoDir + "/zz_verif/" + pkg + "/zz_replay_test.go"
 	fam.TestSrc = testFile(pkg, fam.Instances)
@@ -474,6 +553,98 @@ func H_function_local() {
 	_, e := dc.Get("sc")
 	vnd.Assert(e != nil, "a local never appears among the injected names")
 	vnd.Reach("executed")
+}
+`)
+	// whatever construct binds the local (forRange key, for variable, conc member, nested or compound
+	// assignment, map-range key), an assignment-free rule reading that name finds it undefined
+	for k, w := range []struct{ id, body, name string }{
+		{"forrange_key", " forRange k := arr {\n  sink(k)\n }\n", "k"},
+		{"forrange_key_empty", " forRange k := none {\n  sink(k)\n }\n forRange k2 := arr {\n  sink(k2)\n }\n", "k2"},
+		{"maprange_key", " forRange mk := mp {\n  sink(mk)\n }\n", "mk"},
+		{"for_var", " for i = 0; i < 2; i += 1 {\n  sink(i)\n }\n", "i"},
+		{"conc_member", " conc {\n  c = one()\n  sink(5)\n }\n", "c"},
+		{"nested_assign", " if yes {\n  forRange q := arr {\n   deep = q\n  }\n }\n", "deep"},
+		{"colon_assign", " w := one()\n sink(w)\n", "w"},
+	} {
+		name := fmt.Sprintf("H_binder_%d_%s", k, w.id)
+		text := "rule \"r0\" salience 10 begin\n ev(\"r0.s\")\n" + w.body + " ev(\"r0.e\")\nend\nrule \"r1\" salience 5 begin\n ev(\"r1.s\")\n sink(" + w.name + ")\n ev(\"r1.e\")\nend\n"
+		fmt.Fprintf(&b, `
+// the local %s bound by %s is invisible to an assignment-free rule, in this call, the next one and on another engine
+func %s() {
+	a := vnd.Int64("a")
+	dc := newDC(nil)
+	var seen []int64
+	dc.Add("sink", func(x int64) { seen = append(seen, x) })
+	dc.Add("one", func() int64 { return a })
+	dc.Add("yes", true)
+	dc.Add("arr", []int64{a, 2})
+	dc.Add("none", []int64{})
+	dc.Add("mp", map[int64]int64{3: a})
+	rb := buildText(dc, %q)
+	eng := engine.NewGengine()
+	for call := 0; call < 2; call++ {
+		e0, e1 := vnd.Count("r0.e"), vnd.Count("r1.e")
+		err := eng.Execute(rb, true)
+		vnd.Assert(vnd.Count("r0.e") == e0+1, "the binding rule runs to its end")
+		vnd.Assert(err != nil, "a rule reading another rule's local fails")
+		vnd.Assert(vnd.Count("r1.e") == e1, "the reader stops at the undefined local")
+	}
+	err := engine.NewGengine().ExecuteSelectedRules(rb, []string{"r1"})
+	vnd.Assert(err != nil, "also alone on a fresh engine")
+	_, e := dc.Get(%q)
+	vnd.Assert(e != nil, "a local never appears among the injected names")
+	vnd.Reach("executed")
+}
+`, w.name, w.id, name, text, w.name)
+		fam.Instances = append(fam.Instances, Instance{Func: name, Stratum: "binder:" + w.id, Desc: "local bound by " + w.id + " stays private", Text: text, Expect: []string{"executed"}})
+	}
+	// a struct-valued local read with dotted syntax
+	for _, m := range engineModels() {
+		if m.n != 2 {
+			continue
+		}
+		name := "HS_" + m.name
+		text := "rule \"r0\" salience 20 begin\n ev(\"r0.s\")\n p = mk(a0)\n y = p.V\n z = p.In.W\n ev(\"r0.e\")\n return y + z\nend\nrule \"r1\" salience 10 begin\n ev(\"r1.s\")\n y = p.V\n ev(\"r1.e\")\n return y\nend\n"
+		call := strings.ReplaceAll(m.call, "rb, false", "rb, true")
+		call = strings.ReplaceAll(call, ", false, ", ", true, ")
+		fmt.Fprintf(&b, `
+// a struct-valued local read as p.V / p.In.W is private to its rule: %s
+func %s() {
+	n := 2
+	a := symVals("a", n)
+	dc := newDC(nil)
+	addVals(dc, "a", a)
+	dc.Add("mk", func(v int64) *sbox { return &sbox{V: v, In: &sin{W: v + 1}} })
+	rb := buildText(dc, %q)
+	eng := engine.NewGengine()
+	for call := 0; call < 2; call++ {
+		base := countsOf(n)
+		e1 := vnd.Count(ename(1))
+		err := %s
+		vnd.Event("ret")
+		vnd.Quiesce()
+		res, _ := eng.GetRulesResultMap()
+		if vnd.Count(sname(1))-base[1] == 1 {
+			vnd.Assert(err != nil, "a rule reading another rule's local fails")
+			vnd.Assert(vnd.Count(ename(1)) == e1, "the reader stops at the undefined local")
+			_, has := res["r1"]
+			vnd.Assert(!has, "the reader returns nothing")
+		}
+		if vnd.Count(sname(0))-base[0] == 1 {
+			x, ok := res["r0"].(int64)
+			vnd.Assert(ok && x == a[0]+a[0]+1, "the binding rule reads its own object")
+		}
+	}
+	vnd.Reach("executed")
+}
+`, m.fn, name, text, call)
+		fam.Instances = append(fam.Instances, Instance{Func: name, Stratum: "struct-local:" + m.fn, Desc: "struct-valued local private in " + m.fn, Expect: []string{"executed"}})
+	}
+	b.WriteString(`
+type sin struct{ W int64 }
+type sbox struct {
+	V  int64
+	In *sin
 }
 `)
 	fam.Instances = append(fam.Instances, Instance{Func: "H_same_rule_twice_conc", Stratum: "same-rule-overlap", Desc: "two overlapping executions of one rule inside its conc block", Expect: []string{"executed"}},
